@@ -1,6 +1,6 @@
 (* C07: top-level lemmas combining ChunksP (names), ChunksRtP (round trip) and ChunksPruneP (pruning). *)
 From Coq Require Import ZArith List Bool Lia FinFun.
-From KV Require Import Base.Sx Gen.Generated Model.Chunks Proofs.ChunksP Proofs.ChunksRtP Proofs.ChunksPruneP.
+From KV Require Import Base.Sx Gen.Generated Model.Chunks Proofs.ChunksP Proofs.ChunksRtP Proofs.ChunksPruneP Proofs.ChunksPrunedReadP.
 Import ListNotations.
 Open Scope Z_scope.
 
@@ -24,3 +24,11 @@ Proof.
   apply Injective_map_NoDup; [|apply rt_NoDup_block_starts; exact H].
   intros s1 s2 E. eapply name_inj_arr; eauto.
 Qed.
+
+Lemma pruned_read_top : forall (A : Type) (d : A) (miss : option A) (st : store A) (arr : str) (dt : Z)
+    (f : list Z -> A) (chunks : list (list Z)) (index : list (option Z * option Z)),
+  Forall (fun cs => Forall (fun c => 0 < c) cs) chunks ->
+  Forall (fun se => fst se < snd se) (norm_index (chunks_shape chunks) index) ->
+  get_array_index d miss (fst (put_array st arr dt f chunks [])) arr dt chunks index
+    = (spec_requested chunks index, Ok (map f (spec_index_points chunks index))).
+Proof. intros. apply pruned_read; auto. apply name_inj_arr. Qed.
